@@ -96,7 +96,8 @@ def run(rep: Report, tier: str) -> None:
             ok = unparse(g.iter) == "header.items()" and unparse(c.key) == k and unparse(c.value) == f"data[{v}]"
     rep.check(ok, rb, CFG, gp.qualname, "pack = {keyword: data[column] for keyword, column in header.items()}", f"the argument pack is built as {desc}; expected every keyword of the header map paired with the cell at that keyword's own column (an offset or a crossed pair reads the wrong column)", loc(gp.node))
     rets = [n for n in ast.walk(gp.node) if isinstance(n, ast.Return) and n.value is not None]
-    rep.check(len(rets) == 1 and isinstance(rets[0].value, ast.Name) and any(isinstance(n, (ast.Assign, ast.AnnAssign)) and n.value is comps[0] for n in ast.walk(gp.node)) if comps else False, rb, CFG, gp.qualname, "the pack is returned unmodified", "the argument pack is modified between the comprehension and the return", loc(gp.node))
+    direct = bool(comps) and len(rets) == 1 and rets[0].value is comps[0]  # `return {…}` without a local in between
+    rep.check(direct or (len(rets) == 1 and isinstance(rets[0].value, ast.Name) and any(isinstance(n, (ast.Assign, ast.AnnAssign)) and n.value is comps[0] for n in ast.walk(gp.node)) if comps else False), rb, CFG, gp.qualname, "the pack is returned unmodified", "the argument pack is modified between the comprehension and the return", loc(gp.node))
     check_header_validation(rep, rb)
 
 
@@ -153,8 +154,16 @@ def run(rep: Report, tier: str) -> None:
     rep.check(ok, rd, OP, po.qualname, "data rows are handed to the handler with this row's values and number (i + 1)", f"handler call is {short(calls[0], 160) if calls else 'missing'}; expected this iteration's row_values and i + 1", loc(calls[0]) if calls else loc(loop))
     if calls:
         conds = [unparse(t) if pol else f"not ({unparse(t)})" for t, pol in _conds(calls[0], loop)]
-        want_in = "current_table_type is not None and current_table_row_count > 1"
-        rep.check(any(want_in == c for c in conds) and not any("try" in c for c in conds), rd, OP, po.qualname, "handler runs for every row past the header inside a table", f"the handler call is guarded by {conds}; expected exactly 'inside a table and past the header row' after the begin/end tokens were excluded", loc(calls[0]))
+        # the same condition however it is factored (one `elif a and b`, or `elif a:` with a nested `elif b:`): required atoms present, every other atom
+        # one of the exclusions that precede the data branch
+        atoms = set()
+        for t, pol in _conds(calls[0], loop):
+            parts = t.values if pol and isinstance(t, ast.BoolOp) and isinstance(t.op, ast.And) else [t]
+            for part in parts:
+                atoms.add(unparse(part) if pol else f"not ({unparse(part)})")
+        required = {"current_table_type is not None", "current_table_row_count > 1"}
+        allowed = {"not (_is_table_begin(cell0_value))", "not (_is_table_end(cell0_value))", "not (current_table_row_count == 1)", "not (current_table_type is not None and current_table_row_count == 1)"}
+        rep.check(required <= atoms and atoms - required <= allowed and not any("try" in c for c in conds), rd, OP, po.qualname, "handler runs for every row past the header inside a table", f"the handler call is guarded by {conds}; expected exactly 'inside a table and past the header row' after the begin/end tokens were excluded", loc(calls[0]))
         in_try = any(isinstance(a, ast.Try) for a in ancestors(calls[0]) if a is not po.node)
         rep.check(not in_try, rd, OP, po.qualname, "handler call is not wrapped in a try block", "the data-row handler call sits inside a try block: a malformed row could be swallowed instead of failing the run", loc(calls[0]))
     rv = [n for n in loop.body if isinstance(n, (ast.Assign, ast.AnnAssign)) and "row_values" in unparse(n.targets[0] if isinstance(n, ast.Assign) else n.target)]
@@ -177,7 +186,7 @@ def run(rep: Report, tier: str) -> None:
     # ---------------------------------------------------------------- C11.e
     from . import c04
 
-    rf = rep.rule("C11.f", "empty optional cells default as documented: per class and per combination of supplied / absent optional columns (C04.b restated, incl. constructor read order)", floor=20)
+    rf = rep.rule("C11.f", "empty optional cells default as documented: per class and per combination of supplied / absent optional columns (C04.b restated, incl. constructor read order)", floor=20, follows_calls=True)
     for kind, fn in (("in", c04._check_in), ("out", c04._check_out), ("intra", c04._check_intra)):
         fn(rep, rf, m, classes[kind])
         c04._check_read_order(rep, rf, m, classes[kind])
@@ -185,12 +194,12 @@ def run(rep: Report, tier: str) -> None:
     check_split(rep, rep.rule("C11.e", "crypto-fee split: acquisition forwarded field by field (crypto_fee=None), FEE out-transaction of the crypto fee with a fresh negative id", floor=20))
 
 
-def _check_row_predicates(rep: Report, m) -> None:
+def _check_row_predicates(rep: Report, m, rule_id: str = "") -> None:
     """The row loop classifies each row by its first cell: empty, table begin, table end, else header/data. A first cell is empty exactly when it holds
     None or the empty string: any wider notion (falsy, blank-looking) turns a valid data row whose first mandatory field is 0 into an error or a skipped row."""
     from ..norm import Ctx, show, tkey
 
-    rg = rep.rule("C11.g", "row classification: a first cell is 'empty' exactly when it is None or the empty string; the end keyword is compared for equality", floor=2)
+    rg = rule_id or rep.rule("C11.g", "row classification: a first cell is 'empty' exactly when it is None or the empty string; the end keyword is compared for equality; a table begins at the IN / OUT / INTRA keyword (any case)", floor=3)
     prog, norm = m.prog, m.norm
     v = ("sym", "v")
     f = prog.func(OP, "_is_empty")
@@ -223,38 +232,67 @@ def _check_row_predicates(rep: Report, m) -> None:
     t = norm.inline(f, None, {f.param_names[0]: (v, ("prim", "str"))}, Ctx(f.module, None))
     ok = t[0] == "cmp" and t[1] == "==" and v in (t[2], t[3]) and any(x[0] == "const" and isinstance(x[1], str) and x[1] for x in (t[2], t[3]))
     rep.check(ok, rg, OP, f.qualname, "_is_table_end(v) <=> v == <keyword>", f"_is_table_end normalises to {show(t)[:200]}; expected equality with the end-of-table keyword", loc(f.node))
+    f = prog.func(OP, "_is_table_begin")
+    rep.analysed(f)
+    t = norm.inline(f, None, {f.param_names[0]: (v, ("prim", "str"))}, Ctx(f.module, None))
+    reps = [(w, True) for w in ("in", "IN", "In", "out", "OUT", "intra", "INTRA", "Intra")] + [(w, False) for w in ("mixed", "MIXED", "TABLE END", "table end", "", "x", "inn", " in", None, 0.0, 5)]
+    wrong, unknown = [], []
+    for val, want in reps:
+        got = _eval_pred(t, val, prog)
+        if got is _UNK:
+            unknown.append(val)
+        elif bool(got) != want:
+            wrong.append((val, bool(got)))
+    if unknown and not wrong:
+        rep.defer_error(f"{loc(f.node)}: _is_table_begin normalises to {show(t)[:160]}, which the row-predicate rule cannot evaluate for first-cell values {unknown!r}")
+    else:
+        rep.check(not wrong, rg, OP, f.qualname, "_is_table_begin(v) <=> v is the IN, OUT or INTRA keyword in any case (evaluated on the keywords, MIXED, TABLE END, other strings, None, numbers)", f"_is_table_begin normalises to {show(t)[:200]}, which gives {wrong!r} (value, verdict); expected True exactly for the IN / OUT / INTRA keywords: a table would not be recognised, or an ordinary first cell would open one", loc(f.node))
 
 
 _UNK = object()
 _TYPES = {"str": str, "int": int, "float": float, "bool": bool}
 
 
-def _eval_pred(t, val):
+def _eval_pred(t, val, prog=None):
     """Value of a normal-form term when the symbol v holds ``val`` (a concrete representative); _UNK when a construct is not modelled."""
+    if prog is not None:
+        return _EvalWithEnums(prog).ev(t, val)
+    return _ev(t, val, None)
+
+
+class _EvalWithEnums:
+    def __init__(self, prog) -> None:
+        self.prog = prog
+
+    def ev(self, t, val):
+        return _ev(t, val, self.prog)
+
+
+def _ev(t, val, prog):
     k = t[0]
     if k == "const":
         return t[1]
     if k == "sym":
         return val if t[1] == "v" else _UNK
     if k == "not":
-        x = _eval_pred(t[1], val)
+        x = _ev(t[1], val, prog)
         return _UNK if x is _UNK else (not x)
     if k in ("and", "or"):
-        xs = [_eval_pred(x, val) for x in t[1]]
+        xs = [_ev(x, val, prog) for x in t[1]]
         decisive = (lambda x: not x) if k == "and" else (lambda x: bool(x))
         if any(x is not _UNK and decisive(x) for x in xs):
             return k == "or"
         return _UNK if any(x is _UNK for x in xs) else (k == "and")
     if k == "truthy":
-        x = _eval_pred(t[1], val)
+        x = _ev(t[1], val, prog)
         return _UNK if x is _UNK else bool(x)
     if k == "ite":
-        c = _eval_pred(t[1], val)
+        c = _ev(t[1], val, prog)
         if c is _UNK:
             return _UNK
-        return _eval_pred(t[2] if c else t[3], val)
+        return _ev(t[2] if c else t[3], val, prog)
     if k == "cmp":
-        a, b = _eval_pred(t[2], val), _eval_pred(t[3], val)
+        a, b = _ev(t[2], val, prog), _ev(t[3], val, prog)
         if a is _UNK or b is _UNK:
             return _UNK
         try:
@@ -262,21 +300,31 @@ def _eval_pred(t, val):
         except (KeyError, TypeError):
             return _UNK
     if k == "tuple":
-        xs = [_eval_pred(x, val) for x in t[1]]
+        xs = [_ev(x, val, prog) for x in t[1]]
         return _UNK if any(x is _UNK for x in xs) else tuple(xs)
+    if k == "sub" and prog is not None and t[1][0] == "sym" and str(t[1][1]).startswith("class:"):
+        key = _ev(t[2], val, prog)
+        if key is _UNK or not isinstance(key, str):
+            return _UNK
+        from ..consts import enum_members
+
+        ci = prog.classes.get(t[1][1][len("class:"):])
+        hit = [e for e in enum_members(prog, ci)] if ci is not None else []
+        hit = [e for e in hit if e.member == key]
+        return hit[0] if hit else _UNK  # Enum[<unknown name>] raises KeyError: not a value
     if k == "xcall":
         name, recv, args = t[1], t[2], t[3]
         if name == "isinstance" and len(args) == 2:
-            a = _eval_pred(args[0], val)
+            a = _ev(args[0], val, prog)
             types = [args[1]] if args[1][0] == "sym" else list(args[1][1]) if args[1][0] == "tuple" else []
             if a is _UNK or not types or not all(x[0] == "sym" and x[1] in _TYPES for x in types):
                 return _UNK
             return isinstance(a, tuple(_TYPES[x[1]] for x in types))
-        if name in ("strip", "lstrip", "rstrip") and recv is not None and not args:
-            a = _eval_pred(recv, val)
+        if name in ("strip", "lstrip", "rstrip", "lower", "upper", "casefold") and recv is not None and not args:
+            a = _ev(recv, val, prog)
             return getattr(a, name)() if isinstance(a, str) else _UNK
         if name in ("len", "str", "bool") and recv is None and len(args) == 1:
-            a = _eval_pred(args[0], val)
+            a = _ev(args[0], val, prog)
             try:
                 return _UNK if a is _UNK else {"len": len, "str": str, "bool": bool}[name](a)
             except TypeError:
